@@ -314,4 +314,7 @@ static int run(const uint8_t *tp_, size_t len, struct vp_report *rep, unsigned f
     return c->ret;
 }
 
-const struct vp_executor vp_executor = { "C02", "cow_pic", 200, class_names, run, NULL };
+#ifndef C02_EXEC_NAME
+#define C02_EXEC_NAME "cow_pic"
+#endif
+const struct vp_executor vp_executor = { "C02", C02_EXEC_NAME, 200, class_names, run, NULL };
